@@ -137,7 +137,10 @@ func TestWorker(t *testing.T) {
 	hb := os.Getenv("VERIF_HEARTBEAT")
 	beat := func(s string) {
 		if hb != "" {
-			os.WriteFile(hb, []byte(s), 0o644)
+			// atomic replace: the driver must never read a half-written heartbeat
+			if os.WriteFile(hb+".tmp", []byte(s), 0o644) == nil {
+				os.Rename(hb+".tmp", hb)
+			}
 		}
 	}
 	curBeat := ""
